@@ -110,15 +110,15 @@ class C15Bounded(Bounded):
                     except Exception as e:
                         fail("crash", f"backend {bname}, order {perm}, filter {with_filter}: {type(e).__name__}: {e}", [bname, list(perm), with_filter])
                         continue
-                    for other in backends().values():       # instances of other backend classes are created and used in between
+                    try:        # a second backend object of the same class that is given the SAME pipeline object (its items are re-bound to that backend's combined pipeline) ...
+                        B(b.processing_pipeline).convert(SigmaCollection.from_dicts([copy.deepcopy(RULES["lin_h"]), copy.deepcopy(RULES["plain"])]))
+                    except SigmaError:
+                        pass
+                    for other in backends().values():       # ... and instances of the other backend classes are created and used in between (the LAST object created before the next order is of another class)
                         try:
                             other(ProcessingPipeline.from_dict(copy.deepcopy(PIPELINE))).convert(SigmaCollection.from_dicts([copy.deepcopy(RULES["sel"])]))
                         except SigmaError:
                             pass
-                    try:        # ... and a second backend object that is given the SAME pipeline object (its items are re-bound to that backend's combined pipeline)
-                        B(b.processing_pipeline).convert(SigmaCollection.from_dicts([copy.deepcopy(RULES["lin_h"]), copy.deepcopy(RULES["plain"])]))
-                    except SigmaError:
-                        pass
                     for n in perm:
                         if got.get(n) != alone[n]:
                             fail(f"{bname}:{n}", f"backend {bname}{' with filter' if with_filter else ''}: rule {n!r} converted in the order {list(perm)} gives {got.get(n)}, alone it gives {alone[n]}", [bname, list(perm), with_filter, n])
